@@ -31,9 +31,14 @@ def wave_case(mt):
     rec = dict(ref=[], refc='', runs=[], raised=False)
     ds0 = mt['ds'][0]
 
-    def run(cls, d, n, images, reuse=False, strip=False, mode=None, sel=None, seed=0, prop=None):
+    def run(cls, d, n, images, reuse=False, strip=False, mode=None, sel=None, seed=0, prop=None, twice=False):
         w = cls(c, d, sims=n, c_caps=caps, c_reuse=reuse, strip_forks=strip)
-        w.simctl_int[1] = 0 if mode is None else mode
+        if isinstance(mode, list):          # the selection mode is a per-lane setting
+            sc = np.array(w.simctl_int)
+            sc[1, :len(mode)] = mode
+            w.simctl_int[...] = sc
+        else:
+            w.simctl_int[1] = 0 if mode is None else mode
         if sel is not None:
             sc = np.array(w.simctl_int)
             sc[0, :len(sel)] = sel
@@ -51,6 +56,8 @@ def wave_case(mt):
             w.c_prop(seed=seed)
         else:
             w.c_prop(sims=prop, seed=seed)
+        if twice:                           # propagate the same assignment once more, without a new s_to_c()
+            w.c_prop(seed=seed)
         post = np.array(w.c).copy()
         if T is None:
             w.c_to_s()
@@ -119,6 +126,8 @@ def wave_case(mt):
             rec['runs'].append(r)
     except Exception as e:
         rec['runs'].append(dict(name='two cycles WaveSim (reference)', map=[], lanes=[], ccmp=False, c='', keep=[], raised=True, err=repr(e)[:300]))
+    for reuse, strip in ((True, False), (True, True)):
+        add('c_prop() twice %s reuse=%s strip=%s' % (mt['cls2'].__name__, reuse, strip), lambda reuse=reuse, strip=strip: run(mt['cls2'], d0, lanes, inw, reuse, strip, twice=True), ident)
     extra = mt['extra']
     wide = [row + [row[p % lanes] for p in range(extra)] for row in inw]
     add('allocated %d more lanes' % extra, lambda: run(mt['cls2'], d0, lanes + extra, wide), ident + [(p % lanes) + 1 for p in range(extra)])
@@ -143,6 +152,11 @@ def wave_case(mt):
             rec['ref'] = rec['ref'] + digs
             add('mode 1 per-lane datasets %s (lanes using %d)' % (mt['ds'], dsx),
                 lambda: run(mt['cls2'], D, lanes, inw, mode=1, sel=mt['ds']), [base + p + 1 if mt['ds'][p] == dsx else 0 for p in range(lanes)])
+            if lanes >= 2:
+                # mixed settings in one batch: lane 0 selects globally (seed = its dataset), the other lanes per lane
+                add('lane 0 mode 0 (seed %d), other lanes mode 1 %s (lanes using %d)' % (mt['ds'][0], mt['ds'], dsx),
+                    lambda: run(mt['cls2'], D, lanes, inw, mode=[0] + [1] * (lanes - 1), sel=mt['ds'], seed=mt['ds'][0]),
+                    [base + p + 1 if mt['ds'][p] == dsx else 0 for p in range(lanes)])
     return rec
 
 
